@@ -22,6 +22,8 @@ def gen_content(rng, max_top=3, max_children=3, src=None, float_ts=False):
     ts = rng.choice([1, 123456, 1410855216, 2 ** 33 + 1, -1, -1, -86400])
     if float_ts:
         ts = ts + rng.choice([0.0, 0.25, 0.5, 0.999])
+        if int(ts) == 0:
+            ts -= 1.0       # a stamp whose integer part is 0 is written as the 'blank' 0 and cannot be read back: outside every quantifier
     plats = subset(rng, PLATFORMS, 0, 3)
     if rng.random() < 0.5:
         plats.append(arch)
